@@ -31,7 +31,7 @@ theorem tracker_refines_spec_wide (s : Bytes) (isn : Nat) (h : List SegD)
   have hall := chunks_all_ok (isn := isn) hinv hs
   unfold specOKw Tracker.obs
   simp only [hk, hsim.seq, hsim.buf, hsim.payload, hinv.1.payload_eq]
-  have ht : (runModel isn h).total = wrap32 (sumSizes (mapW isn (runAbstract h).buf)) := by
+  have ht : (runModel isn h).total = wrap32 (sumSizes (mapW isn (runAbstract false h).buf)) := by
     rw [← hsim.buf]; exact htot.2
   rw [ht]
   unfold sumSizes W at *
@@ -52,7 +52,7 @@ theorem tracker_refines_spec (s : Bytes) (isn : Nat) (h : List SegD)
   have hlt := AInv_sumSizes_lt hinv hs
   unfold specOK Tracker.obs
   simp only [hk, hsim.seq, hsim.buf, hsim.payload, hinv.1.payload_eq]
-  have ht : (runModel isn h).total = sumSizes (mapW isn (runAbstract h).buf) := by
+  have ht : (runModel isn h).total = sumSizes (mapW isn (runAbstract false h).buf) := by
     rw [htot.2, hsim.buf, sumSizes_mapW]
     unfold wrap32; omega
   rw [ht]
@@ -147,7 +147,7 @@ theorem complete_prefix_delivered (s : Bytes) (isn : Nat) (h : List SegD)
     have hin := (hinv.1.chunks c0 hc0).inside
     have hkN := hinv.1.k_le
     rw [hsim.seq, hlen, hf]
-    have : sub32 (W isn c0.1) (W isn (runAbstract h).k) = c0.1 - (runAbstract h).k :=
+    have : sub32 (W isn c0.1) (W isn (runAbstract false h).k) = c0.1 - (runAbstract false h).k :=
       sub32_W (by omega) (by omega)
     simp only [this]
     omega
